@@ -297,3 +297,30 @@ def backoff_axioms(formula):
     if is_sym(formula):
         walk(formula)
     return out
+
+
+# ---- closures of a function, addressed by what they do and bound by free-variable name (robust against re-numbering / re-ordering)
+def find_closure(prog, parent, must_call):
+    """the unique direct closure parent$N whose body calls every name in must_call (substring of the callee / method name)"""
+    import json as _json, re as _re
+    found = []
+    for n, f in prog.funcs.items():
+        if not (n.startswith(parent + '$') and n[len(parent) + 1:].isdigit()):
+            continue
+        if '_calls' not in f:
+            f['_calls'] = set(_re.findall(r'"(?:method|fn)": "([^"]+)"', _json.dumps(f['blocks'])))
+        if all(any(m in c for c in f['_calls']) for m in must_call):
+            found.append(n)
+    if len(found) != 1:
+        raise Unsupported('closure of %s calling %s: %d candidates' % (parent.split('/')[-1], must_call, len(found)))
+    return found[0]
+
+
+def bind_closure(ex, fn, **byname):
+    """Closure(fn) with its free variables bound by name; a free variable the harness does not know makes the obligation inconclusive"""
+    b = []
+    for fv in ex.prog.funcs[fn]['freevars']:
+        if fv['name'] not in byname:
+            raise Unsupported('closure %s captures %s, which the harness does not provide' % (fn.split('/')[-1], fv['name']))
+        b.append(byname[fv['name']])
+    return Closure(fn, b)
